@@ -663,7 +663,7 @@ func TestC28(t *testing.T) {
 		kind := kind
 
 		t.Run(kind, func(t *testing.T) {
-			r.Checks(20, 2400)
+			r.Checks(20, 1500)
 			rapid.Check(t, func(rt *rapid.T) {
 				_, enc := gen.Encoders()
 				so := c28Gen(rt, kind)
